@@ -103,6 +103,10 @@ func flushScenario(s *Sim, params map[string]string) {
 	}
 	tr := &kafka.Transport{Dial: n.Dialer("flush"), ClientID: "sim-flush", MetadataTTL: Pick(t, "cfg", 6*time.Second, 300*time.Millisecond),
 		DialTimeout: 3 * time.Second, IdleTimeout: Pick(t, "cfg", 30*time.Second, 100*time.Millisecond)}
+	if t.Intn("throttle", 3) == 0 {
+		// responses report a quota throttle (informational: they were served)
+		cl.ThrottleMs, cl.ThrottleEvery = int32(Pick(t, "throttle", 1, 50, 700)), Pick(t, "throttle", 1, 2, 5)
+	}
 	multiTopic := ntop > 1
 	w := &kafka.Writer{
 		Addr: kafka.TCP(cl.Brokers[0].Addr()), Transport: tr, Balancer: bal,
